@@ -221,6 +221,7 @@ Lemma quiet_step : forall s a s' os, exec fx p s a = Some (s', os) -> quiet a = 
 Proof.
   intros s a s' os E Q S AD. destruct a; cbn in Q; try discriminate; cbn in E.
   - destruct (get id (calls s)); [discriminate|].
+    destruct (id <? 0); [discriminate|].
     destruct (negb (f_st f =? 0) && negb (kind_eqb k KCtl)); [discriminate|].
     destruct ((f_st f =? 0) && kind_eqb k KCtl); [discriminate|].
     inversion E; subst. destruct (libkey k); cbn; auto.
